@@ -87,12 +87,16 @@ def gen_case(rng):
         pr["streams"], pr["utilities"], pr["zone_tree"] = g["streams"], g["utilities"], g["zone_tree"]
         ss = pr["streams"]
 
-        def retype(n, depth):
-            if depth > 0:
-                n["type"] = rng.choice(["Zone", "Zone", "Sub-Zone", "Process Zone", ""]) if depth > 1 else rng.choice(["Zone", "Process Zone"])
+        def retype(n, depth, parent_is_operation):
+            # below a unit operation only operations are legal (the service rejects anything else as invalid nesting)
+            if depth == 1:
+                n["type"] = rng.choice(["Zone", "Process Zone"])
+            elif depth > 1:
+                n["type"] = rng.choice(["Zone", ""]) if parent_is_operation else rng.choice(["Zone", "Zone", "Sub-Zone", "Process Zone", ""])
+            is_op = depth > 1 and n["type"] in ("Zone", "")
             for c in n.get("children") or []:
-                retype(c, depth + 1)
-        retype(pr["zone_tree"], 0)
+                retype(c, depth + 1, is_op)
+        retype(pr["zone_tree"], 0, False)
     elif shape == "near_tol":
         # two stream temperatures that differ by about the tolerance (measured data, unit conversions)
         k = rng.randrange(len(ss))
